@@ -403,6 +403,41 @@ impl CommitHandler for ExternalManifestCommitHandler {
             .map_err(|_| CommitError::CommitConflict {});
 
         if let Err(err) = res {
+            // The put may have been applied even though it reported an error (lost response,
+            // retried request).  If the external store points at our staging manifest the
+            // commit has happened and must be finalized, not rolled back.
+            if let Ok(committed_path) = self
+                .external_manifest_store
+                .get(base_path.as_ref(), manifest.version)
+                .await
+            {
+                // The same holds when someone else has already finalized our commit: the
+                // store then holds the final path.  A finalized manifest is ours exactly when
+                // it names the transaction file of this commit attempt.
+                let finalized_for_us = committed_path == path.as_ref()
+                    && manifest
+                        .transaction_file
+                        .as_ref()
+                        .is_some_and(|tx_file| !tx_file.is_empty())
+                    && crate::io::manifest::read_manifest(object_store, &path, None)
+                        .await
+                        .is_ok_and(|committed| {
+                            committed.transaction_file == manifest.transaction_file
+                        });
+                if committed_path == staging_path.as_ref() || finalized_for_us {
+                    return Ok(self
+                        .finalize_manifest(
+                            base_path,
+                            &staging_path,
+                            manifest.version,
+                            write_res.size as u64,
+                            write_res.e_tag,
+                            &object_store.inner,
+                            naming_scheme,
+                        )
+                        .await?);
+                }
+            }
             // delete the staging manifest
             match object_store.inner.delete(&staging_path).await {
                 Ok(_) => {}
